@@ -502,8 +502,33 @@ impl ValT for HV {
 }
 
 // ---- zero-sized ----
-#[derive(Clone, Copy)]
+// Zero-sized, but not trivially droppable: creations (new / clone / default) and drops are counted, so
+// that "dropped exactly once" (C06) can be judged for element types that cannot carry an identity:
+// after every call, the number of live ZK (ZV) objects must equal the number of elements the maps hold.
+pub static ZK_LIVE: std::sync::atomic::AtomicI64 = std::sync::atomic::AtomicI64::new(0);
+pub static ZV_LIVE: std::sync::atomic::AtomicI64 = std::sync::atomic::AtomicI64::new(0);
+/// objects legitimately leaked by `mem::forget` of a Drain
+pub static ZK_LEAK: std::sync::atomic::AtomicI64 = std::sync::atomic::AtomicI64::new(0);
+pub static ZV_LEAK: std::sync::atomic::AtomicI64 = std::sync::atomic::AtomicI64::new(0);
+pub fn zst_live() -> (i64, i64) {
+    (ZK_LIVE.load(Relaxed) - ZK_LEAK.load(Relaxed), ZV_LIVE.load(Relaxed) - ZV_LEAK.load(Relaxed))
+}
+pub fn zst_leak(keys: usize, vals: usize) {
+    ZK_LEAK.fetch_add(keys as i64, Relaxed);
+    ZV_LEAK.fetch_add(vals as i64, Relaxed);
+}
 pub struct ZK;
+impl Clone for ZK {
+    fn clone(&self) -> ZK {
+        ZK_LIVE.fetch_add(1, Relaxed);
+        ZK
+    }
+}
+impl Drop for ZK {
+    fn drop(&mut self) {
+        ZK_LIVE.fetch_sub(1, Relaxed);
+    }
+}
 impl Hash for ZK {
     #[inline]
     fn hash<S: Hasher>(&self, s: &mut S) {
@@ -522,9 +547,11 @@ impl Eq for ZK {}
 impl KeyT for ZK {
     const NAME: &'static str = "zst";
     fn new(_k: u32) -> Self {
+        ZK_LIVE.fetch_add(1, Relaxed);
         ZK
     }
     fn probe(_k: u32) -> Self {
+        ZK_LIVE.fetch_add(1, Relaxed);
         ZK
     }
     fn k(&self) -> u32 {
@@ -534,10 +561,22 @@ impl KeyT for ZK {
         0
     }
 }
-#[derive(Clone, Copy, PartialEq)]
+#[derive(PartialEq)]
 pub struct ZV;
+impl Clone for ZV {
+    fn clone(&self) -> ZV {
+        ZV_LIVE.fetch_add(1, Relaxed);
+        ZV
+    }
+}
+impl Drop for ZV {
+    fn drop(&mut self) {
+        ZV_LIVE.fetch_sub(1, Relaxed);
+    }
+}
 impl ValT for ZV {
     fn new(_v: u32) -> Self {
+        ZV_LIVE.fetch_add(1, Relaxed);
         ZV
     }
     fn v(&self) -> u32 {
@@ -574,8 +613,8 @@ dbg_serde!(PK, |x: &PK| x.0, PK);
 dbg_serde!(PV, |x: &PV| x.0, PV);
 dbg_serde!(HK, |x: &HK| x.k, <HK as KeyT>::new);
 dbg_serde!(HV, |x: &HV| x.v, <HV as ValT>::new);
-dbg_serde!(ZK, |_x: &ZK| 0u32, |_| ZK);
-dbg_serde!(ZV, |_x: &ZV| 0u32, |_| ZV);
+dbg_serde!(ZK, |_x: &ZK| 0u32, <ZK as KeyT>::new);
+dbg_serde!(ZV, |_x: &ZV| 0u32, <ZV as ValT>::new);
 
 // Entry::or_default: a value created inside the map (a new ledger object for heap values)
 impl Default for PV {
